@@ -19,7 +19,10 @@ RULE = ("differential against a rotation-based reference search: (a) all 15 "
         "patterns x every target over ACGT of length 1-6 x 6 target kinds; "
         "(c) generated patterns (IUPAC letters, <=4 groups, greedy/lazy runs), "
         "targets over ACGTacgt built from a rotated instance of the pattern or "
-        "random, drawn pos/endpos. Non-trivial = the reported match runs past "
+        "random, drawn pos/endpos; thorough tier: the same strategy and oracle are "
+        "additionally driven by atheris/libFuzzer (4 x 60000 runs, coverage-guided "
+        "over moclo's instrumented code) and anything it reports is re-judged by the "
+        "plain oracle. Non-trivial = the reported match runs past "
         "the end of the target (end() > n) or a letter-table case; distinct = "
         "distinct (pattern, target, kind, pos, endpos).")
 ASSUMPTIONS = [
@@ -134,13 +137,63 @@ def check(spec, ctx):
 # exhaustive
 
 def exhaustive_tasks(tier):
-    return ["letters"] + list(range(len(FAMILY)))
+    tasks = ["letters"] + list(range(len(FAMILY)))
+    if tier == "thorough":
+        tasks += [["atheris", i] for i in range(4)]
+    return tasks
+
+
+def _run_atheris(shard, ctx):
+    """Secondary search engine (thorough tier): libFuzzer drives the same
+    strategy and oracle; anything it finds is re-judged here by the plain
+    oracle.  Unavailable or unstable fuzzer = recorded, never a verdict."""
+    import json
+    import os
+    import shutil
+    import subprocess
+    import sys
+    import tempfile
+    from vlib.runner import VERIF, run_body
+    mod = sys.modules[__name__]
+    if not os.path.isdir(os.path.join(VERIF, ".deps", "atheris")):
+        ctx.event("atheris:unavailable")
+        return
+    out = tempfile.mkdtemp(prefix="moclo-verif-atheris-")
+    try:
+        runs = 60000
+        cmd = [sys.executable, os.path.join(VERIF, "checks", "c16_fuzz.py"), out,
+               "-runs=%d" % runs, "-seed=%d" % (ctx.seed * 10 + shard + 1), "-max_len=4096",
+               "-len_control=0", "-artifact_prefix=%s/" % out, os.path.join(out, "corpus")]
+        os.makedirs(os.path.join(out, "corpus"))
+        try:
+            p = subprocess.run(cmd, stdout=subprocess.PIPE, stderr=subprocess.STDOUT, timeout=900, cwd=out)
+        except subprocess.TimeoutExpired:
+            ctx.event("atheris:timeout")
+            p = None
+        stats = {}
+        if os.path.exists(os.path.join(out, "stats.json")):
+            stats = json.load(open(os.path.join(out, "stats.json")))
+        ctx.event("atheris:bodies", stats.get("bodies", 0))
+        ctx.event("atheris:wrapped-matches", stats.get("wrapped", 0))
+        ctx.evaluations += stats.get("bodies", 0)
+        vf = os.path.join(out, "violation.json")
+        if os.path.exists(vf):
+            spec = json.load(open(vf))["spec"]
+            ctx.event("atheris:reported")
+            run_body(mod, spec, ctx)        # raises if the plain oracle agrees
+            ctx.event("atheris:not-reproduced")
+        elif p is not None and p.returncode != 0:
+            ctx.event("atheris:abnormal-exit")
+    finally:
+        shutil.rmtree(out, ignore_errors=True)
 
 
 def run_exhaustive(arg, ctx):
     from vlib.runner import run_body
     import sys
     mod = sys.modules[__name__]
+    if isinstance(arg, list) and arg[0] == "atheris":
+        return _run_atheris(arg[1], ctx)
     if arg == "letters":
         for code in sorted(dna.IUPAC):
             for nt in "ACGTacgt":
